@@ -6,14 +6,16 @@ use std::str::FromStr;
 
 use rocfl::ocfl::{LayoutExtensionName, StorageLayout};
 
-fn unhex(s: &str) -> String {
+mod hist;
+
+pub fn unhex(s: &str) -> String {
     if s == "-" {
         return String::new();
     }
     String::from_utf8(hex::decode(s).expect("hex")).expect("utf8")
 }
 
-fn enhex(s: &str) -> String {
+pub fn enhex(s: &str) -> String {
     if s.is_empty() {
         "-".to_string()
     } else {
@@ -61,6 +63,12 @@ fn main() {
     let stdin = io::stdin();
     let stdout = io::stdout();
     let mut out = stdout.lock();
+    let base = std::env::var("VERIF_SCRATCH").map(std::path::PathBuf::from).unwrap_or_else(|_| {
+        let d = if std::path::Path::new("/dev/shm").is_dir() { "/dev/shm" } else { "/tmp" };
+        std::path::PathBuf::from(format!("{}/rocfl-verif-h.{}", d, std::process::id()))
+    });
+    let keep = std::env::var("VERIF_KEEP").is_ok();
+    let mut h = hist::Hist::new(base.clone());
     for line in stdin.lock().lines() {
         let line = line.unwrap();
         let toks: Vec<&str> = line.split_whitespace().collect();
@@ -69,8 +77,12 @@ fn main() {
         }
         let resp = match toks[0] {
             "layout" => do_layout(&toks[1..]),
-            _ => "bad-op".to_string(),
+            op => h.exec(op, &toks[1..]),
         };
         writeln!(out, "{}", resp).unwrap();
+        out.flush().unwrap();
+    }
+    if !keep {
+        let _ = std::fs::remove_dir_all(&base);
     }
 }
